@@ -9,7 +9,7 @@ from .cfg import CFG, Node
 from .dataflow import Reaching, own_nodes, own_statements, params_of
 from .match import Expander, norm, same, text
 from .report import Report
-from .source import AnalysisError, ClassInfo, Func, Project
+from .source import AnalysisError, ClassInfo, Func, Project, dotted
 
 TYPES = D.TYPES
 SCALARS = ["Bool", "String", "NagString", "OneOf", "Integer", "Decimal", "DateTime", "Time"]
@@ -270,106 +270,126 @@ def _conjuncts(test):
     return [text(t)]
 
 
+def make_lookup(p: Project, modname: str, ci: Optional[ClassInfo] = None):
+    """resolver of a call to the repo function it names: self.m(...) / cls.m(...) through the MRO,
+    plain names through the module's bindings"""
+
+    def lookup(call: ast.Call):
+        f = call.func
+        if isinstance(f, ast.Attribute) and isinstance(f.value, ast.Name) and f.value.id in ("self", "cls") and ci is not None:
+            c, fn = ci.find_method(f.attr)
+            return fn
+        if isinstance(f, ast.Name):
+            v = p.resolve(modname, f.id)
+            if isinstance(v, Func):
+                return v.node
+        return None
+
+    return lookup
+
+
+def guard_table(p: Project, rep: Report, rule: str, label: str, ci: ClassInfo, fn, expected: dict, relevant, where):
+    """exhaustive path-condition table of a guard function.
+    expected: {'raise': cond-src, 'warn': cond-src or None}; the function must return its first value
+    parameter unchanged on every non-raising assignment.  `relevant(atom)` says whether an atom that is
+    not one of the expected ones is a (mis-spelt) version of them (=> violation) or unrelated (=> undecided)."""
+    from . import paths as PT
+
+    vp = params_of(fn)[1]
+    lookup = make_lookup(p, ci.module, ci)
+
+    def events(c):
+        d = dotted(c.func) or ""
+        if d.split(".")[-1] == "warn":
+            return "warn"
+        return None
+
+    try:
+        pths = PT.enumerate_paths(fn, lookup, event_filter=events)
+    except AnalysisError as e:
+        rep.note(f"{rule} {label}: undecided ({e})")
+        return
+    exp_raise = PT.parse_cond(expected["raise"])
+    exp_warn = PT.parse_cond(expected["warn"]) if expected.get("warn") else None
+    known = exp_raise.atoms() | (exp_warn.atoms() if exp_warn else set())
+    atoms = set(PT.atoms_of(pths))
+    odd = sorted(a for a in atoms - known)
+    bad_atoms = [a for a in odd if relevant(a)]
+    if bad_atoms:
+        rep.check(rule, f"{label}:comparison", False, f"the guard tests `{bad_atoms[0]}` where `{sorted(known)}` is expected: the limit itself must be accepted and the next value rejected", where)
+        return
+    if odd:
+        rep.note(f"{rule} {label}: undecided - guard depends on unrecognised conditions {odd}")
+        return
+    problems = []
+    for env, ps in PT.truth_table(pths, extra_atoms=sorted(known)):
+        if len(ps) != 1:
+            problems.append(f"{len(ps)} paths for {env}")
+            continue
+        pth = ps[0]
+        want_raise = exp_raise.ev(env)
+        if want_raise != (pth.outcome == "raise"):
+            problems.append(f"when {_fmt(env)} the function {'does not raise' if want_raise else 'raises'}")
+            continue
+        if pth.outcome != "raise":
+            v = pth.value
+            same = isinstance(v, ast.Name) and v.id == vp
+            if pth.outcome == "fall" or v is None or not same:
+                # returning None literally where the parameter is known to be None is the same value
+                if not (isinstance(v, ast.Constant) and v.value is None and env.get(f"{vp} is None") is True):
+                    problems.append(f"when {_fmt(env)} it returns {ast.unparse(v) if v is not None else 'nothing'} instead of its argument unchanged")
+            else:
+                # the parameter must not have been re-bound on this path
+                cfg_nodes = pth.nodes
+                from .cfg import CFG as _CFG
+
+            if exp_warn is not None:
+                want_warn = exp_warn.ev(env)
+                if want_warn != ("warn" in pth.events):
+                    problems.append(f"when {_fmt(env)} it {'does not warn' if want_warn else 'warns'}")
+    # re-binding of the parameter anywhere in the function (value not kept whole)
+    for st in own_statements(fn):
+        if isinstance(st, (ast.Assign, ast.AugAssign)):
+            tg = st.targets if isinstance(st, ast.Assign) else [st.target]
+            if any(isinstance(t, ast.Name) and t.id == vp for t in tg):
+                problems.append(f"the argument {vp} is re-bound ({text(st)[:50]}) before it is returned")
+    rep.check(rule, f"{label}:guard-table", not problems, "; ".join(problems[:3]), where)
+
+
+def _fmt(env):
+    return ", ".join(f"{'' if v else 'not '}{k}" for k, v in sorted(env.items()))
+
+
 def t_r4(p: Project, rep: Report):
-    rep.rule("T-R4", "guard strictness: enforce_required raises iff `value is None and self.required`; String.enforce_length raises (strict) or warns (non-strict) iff len(value) > self.length and returns its argument unchanged; Integer.enforce_length raises iff value >= 10**length and returns its argument unchanged")
+    rep.rule("T-R4", "guard strictness, decided by an exhaustive path-condition table (every spelling: nested ifs, early returns, De Morgan, helpers that always raise): enforce_required raises iff `value is None and self.required`; String.enforce_length raises iff `length is not None and len(value) > length and strict`, warns iff the same with `not strict`, and returns its argument unchanged otherwise; Integer.enforce_length raises iff `length is not None and value >= 10**length`; NagString only flips `strict`")
     types = D.element_types(p)
     element = p.get_class(TYPES, "Element")
-    # --- enforce_required
     fn = element.own_func("enforce_required")
     if fn is None:
         raise AnalysisError("Element.enforce_required not found")
     vp = params_of(fn)[1]
-    ex = Expander(fn)
-    tests = [s for s in own_statements(fn) if isinstance(s, ast.If) and any(isinstance(b, ast.Raise) for b in s.body)]
-    ok = False
-    got = None
-    for t in tests:
-        got = sorted(_conjuncts(ex.x(t.test)))
-        if got == sorted([f"{vp} is None", "self.required"]):
-            ok = True
-    rep.check("T-R4", "Element.enforce_required:guard", ok, f"raising guard is {got}; expected `{vp} is None and self.required`", tloc(p, fn))
-    _returns_param(p, rep, "Element.enforce_required", fn, vp)
-    # --- String.enforce_length
+    guard_table(p, rep, "T-R4", "Element.enforce_required", element, fn, {"raise": f"{vp} is None and self.required"},
+                lambda a: "required" in a and a != "bool(self.required)" or (f"{vp}" in a and "None" in a and a != f"{vp} is None"), tloc(p, fn))
     s = types["String"]
     fn = s.own_func("enforce_length")
     if fn is None:
         raise AnalysisError("String.enforce_length not found")
     vp = params_of(fn)[1]
-    ex = Expander(fn)
-    found = False
-    for t in [x for x in own_statements(fn) if isinstance(x, ast.If)]:
-        cj = _conjuncts(ex.x(t.test))
-        cmp_ = [c for c in cj if "len(" in c and "self.length" in c and "None" not in c]
-        if not cmp_:
-            continue
-        found = True
-        strict = f"self.length < len({vp})" in cmp_
-        rep.check("T-R4", "String.enforce_length:comparison", strict, f"length guard is `{cmp_[0]}`; the limit itself must be accepted and limit+1 rejected: expected `len({vp}) > self.length`" if not strict else "", tloc(p, t))
-        # body: raise when strict else warn
-        flow_ok, why = _strict_raise_else_warn(t)
-        rep.check("T-R4", "String.enforce_length:strict-raises-else-warns", flow_ok, why, tloc(p, t))
-    if not found:
-        rep.check("T-R4", "String.enforce_length:comparison", False, "no comparison of len(value) with self.length guards the length", tloc(p, fn))
-    _returns_param(p, rep, "String.enforce_length", fn, vp)
-    # NagString only flips `strict`
+    guard_table(p, rep, "T-R4", "String.enforce_length", s, fn,
+                {"raise": f"self.length is not None and len({vp}) > self.length and self.strict", "warn": f"self.length is not None and len({vp}) > self.length and not self.strict"},
+                lambda a: ("len(" in a and "length" in a), tloc(p, fn))
     nag = types["NagString"]
     v = nag.lookup("strict")
     rep.check("T-R4", "NagString.strict", v is False and nag.own_func("enforce_length") is None, f"NagString.strict={v!r}; it must only switch the raise into a warning", tloc(p, nag.node))
     v = s.lookup("strict")
     rep.check("T-R4", "String.strict", v is True, f"String.strict={v!r}", tloc(p, s.node))
-    # --- Integer.enforce_length
     i = types["Integer"]
     fn = i.own_func("enforce_length")
     if fn is None:
         raise AnalysisError("Integer.enforce_length not found")
     vp = params_of(fn)[1]
-    ex = Expander(fn)
-    found = False
-    for t in [x for x in own_statements(fn) if isinstance(x, ast.If)]:
-        cj = _conjuncts(ex.x(t.test))
-        cmp_ = [c for c in cj if "10 **" in c or "10**" in c]
-        if not cmp_:
-            continue
-        found = True
-        strict = f"10 ** self.length <= {vp}" in cmp_
-        rep.check("T-R4", "Integer.enforce_length:comparison", strict, f"digit guard is `{cmp_[0]}`; 10**n - 1 must be accepted and 10**n rejected: expected `{vp} >= 10 ** self.length`" if not strict else "", tloc(p, t))
-        raises = any(isinstance(b, ast.Raise) for b in t.body)
-        rep.check("T-R4", "Integer.enforce_length:raises", raises, "guard body does not raise" if not raises else "", tloc(p, t))
-    if not found:
-        rep.check("T-R4", "Integer.enforce_length:comparison", False, "no comparison of value with 10**length guards the digits", tloc(p, fn))
-    _returns_param(p, rep, "Integer.enforce_length", fn, vp)
-
-
-def _returns_param(p, rep, label, fn, vp):
-    flow = Flow(fn)
-    rets = flow.return_nodes()
-    falls = [x for x in flow.cfg.return_nodes() if x.kind != "return"]
-    ok = bool(rets) and not falls
-    why = "falls off the end" if falls else ""
-    for rn in rets:
-        v = rn.stmt.value
-        if not (isinstance(v, ast.Name) and v.id == vp):
-            ok, why = False, f"returns {ast.unparse(v) if v else None}, not its argument unchanged"
-            continue
-        ds = flow.reach.defs_at(rn, vp)
-        if any(d.kind != "param" for d in ds):
-            ok, why = False, f"argument {vp} is rebound before it is returned (value not kept whole)"
-    rep.check("T-R4", f"{label}:returns-argument", ok, why, tloc(p, fn))
-
-
-def _strict_raise_else_warn(iff: ast.If) -> Tuple[bool, str]:
-    """body of the length guard: raise under self.strict, warnings.warn otherwise"""
-    for s in iff.body:
-        if isinstance(s, ast.If) and text(s.test) in ("self.strict", "not self.strict"):
-            pos, neg = (s.body, s.orelse) if text(s.test) == "self.strict" else (s.orelse, s.body)
-            r = any(isinstance(b, ast.Raise) for b in pos)
-            w = any(isinstance(b, ast.Expr) and isinstance(b.value, ast.Call) and text(b.value.func) in ("warnings.warn", "warn") for b in neg) and not any(isinstance(b, ast.Raise) for b in neg)
-            if r and w:
-                return True, ""
-            return False, f"under self.strict raises={r}; otherwise warns-without-raising={w}"
-    if any(isinstance(b, ast.Raise) for b in iff.body):
-        return False, "raises regardless of self.strict (warn-only strings would be rejected)"
-    return False, "no raise / warn split on self.strict"
+    guard_table(p, rep, "T-R4", "Integer.enforce_length", i, fn, {"raise": f"self.length is not None and {vp} >= 10 ** self.length"},
+                lambda a: ("10 **" in a or "10**" in a), tloc(p, fn))
 
 
 def t_r5(p: Project, rep: Report):
